@@ -16,6 +16,7 @@ import (
 	"fmt"
 	"math/rand"
 	"net/url"
+	"os"
 	"sort"
 	"strings"
 
@@ -296,6 +297,49 @@ func childOnlyAsBlob(r *vh.Run, i int) {
 	}
 }
 
+// refusedIntoFresh: "refusals change nothing" where there was nothing - a refused push names a repository that does not
+// exist yet.  olareg has no catalog, so the one place where such a repository could show is the root directory (directory
+// store and memory store over a directory): no directory of that name may be there once the server is closed (so that a
+// deferred clean-up had its chance).
+func refusedIntoFresh(r *vh.Run, i int) {
+	kind := []vh.StoreKind{vh.Dir, vh.MemDir}[i%2]
+	root := r.TempDir("c04f")
+	defer vh.RemoveAll(root)
+	srv := vh.New(vh.Conf(kind, root, vh.Neutral))
+	closed := false
+	defer func() {
+		if !closed {
+			srv.Close()
+		}
+	}()
+	name := fmt.Sprintf("fresh%d/sub", i)
+	wit := map[string]any{"trial": i, "store": kind.String(), "repository": name}
+	missing := vh.DigestOf("sha256", []byte(fmt.Sprintf("layer nobody pushed %d", i)))
+	bodies := [][2]string{
+		{vh.MTImage, fmt.Sprintf(`{"schemaVersion":2,"mediaType":%q,"config":{"mediaType":%q,"digest":%q,"size":2},"layers":[{"mediaType":%q,"digest":%q,"size":7}]}`, vh.MTImage, vh.MTConfig, missing, vh.MTLayer, missing)},
+		{vh.MTIndex, fmt.Sprintf(`{"schemaVersion":2,"mediaType":%q,"manifests":[{"mediaType":%q,"digest":%q,"size":7}]}`, vh.MTIndex, vh.MTImage, missing)},
+		{vh.MTImage, "this is not json"},
+		{"text/plain", `{"schemaVersion":2}`},
+	}
+	b := bodies[(i/2)%len(bodies)]
+	ref := "t1"
+	if i%3 == 0 {
+		ref = vh.DigestOf("sha256", []byte(b[1]))
+	}
+	rs := vh.Do(srv, vh.Req{Method: "PUT", URL: "/v2/" + name + "/manifests/" + ref, H: map[string]string{"Content-Type": b[0]}, Body: []byte(b[1])})
+	wit["status"], wit["content_type"], wit["body"], wit["reference"] = rs.Status, b[0], b[1], ref
+	if rs.Status < 400 || rs.Status >= 500 {
+		r.Violation("invalid-accepted:fresh-repository", fmt.Sprintf("an incomplete or malformed manifest pushed into a repository that did not exist was answered %d", rs.Status), wit)
+		return
+	}
+	r.Count("refused_into_fresh_trials", 1)
+	srv.Close()
+	closed = true
+	if _, err := os.Stat(root + "/" + strings.SplitN(name, "/", 2)[0]); err == nil {
+		r.Violation("refused-side-effect:fresh-repository-directory", fmt.Sprintf("%s store: a refused manifest push (%d) into %q, a repository that did not exist, left a directory of that name under the root", kind, rs.Status, name), wit)
+	}
+}
+
 // childContentDeleted: the mirror image of childOnlyAsBlob.  A child manifest was pushed and acknowledged, then its
 // content was removed through the blob API (the entry in the repository index stays until a collection drops it).  It
 // answers 404 by digest - it does not exist - so an index (or, for a config / layer, an image) that references it is
@@ -557,11 +601,13 @@ func main() {
 	nk := r.N(12, 120)
 	vh.Parallel(nk, 8, func(i int) { childOnlyAsBlob(r, i) })
 	vh.Parallel(nk, 8, func(i int) { childContentDeleted(r, i) })
+	vh.Parallel(nk, 8, func(i int) { refusedIntoFresh(r, i) })
+	r.Require("refused_into_fresh_trials", int64(nk))
 	r.Require("child_content_deleted_trials", int64(nk/2))
 	r.Require("child_only_as_blob_trials", int64(nk*3/4))
 	r.Require("histories", int64(n))
 	r.Require("accepted", 300)
 	r.Require("refused", 300)
 	r.RequireDistinct("classes", 40)
-	r.Finish("histories of 25-45 manifest pushes: valid manifests and 15 mutation classes (truncated, a missing layer that names download urls, an unsupported media type in the body with no Content-Type, references with a malformed digest, not JSON, unsupported / parameterised / absent / inconsistent Content-Type, shape inconsistent with type, hostile reference, digest mismatch in path or parameter, extra or missing references, references only in another repository) into empty, populated and referrer-heavy repositories, both stores; complete snapshot compared after every push; plus directed trials in which the children of an index exist only as blobs uploaded through the blob API (recorded finding K12); a case is one push, distinct = (class, repository state, by tag/digest)", "pushes", "classes")
+	r.Finish("histories of 25-45 manifest pushes: valid manifests and 15 mutation classes (truncated, a missing layer that names download urls, an unsupported media type in the body with no Content-Type, references with a malformed digest, not JSON, unsupported / parameterised / absent / inconsistent Content-Type, shape inconsistent with type, hostile reference, digest mismatch in path or parameter, extra or missing references, references only in another repository) into empty, populated and referrer-heavy repositories, both stores; complete snapshot compared after every push; plus directed trials in which the children of an index exist only as blobs uploaded through the blob API (recorded finding K12), and directed trials in which a refused push names a repository that does not exist (directory store and memory store over a directory: no directory of that name may remain); a case is one push, distinct = (class, repository state, by tag/digest)", "pushes", "classes")
 }
